@@ -209,10 +209,33 @@ def js_agree(prog: Program) -> RuleResult:
     if leaf_const is None or list_const is None:
         leaf_const, list_const = leaf_const or "leaf_types", list_const or "list_like_classes"
     for name, shape, f in (("to_json", ws, w), ("from_json", rs, rd)):
+        full_shape = shape
+        # the plain branches (leaf values, list-likes); in the writer the tagged objects are tested before them (see below)
+        shape = [x for x in shape if classify(x[0]) in ("leaves", "list-likes")] if name == "to_json" else shape
         kinds = [k for k, _, _ in shape[:2]]
         r.check(kinds == [leaf_const, list_const], f"{name}#dispatch-order", site(f), str(kinds),
-                "leaf values first, list-likes second, objects last; constants shared by both directions",
+                "leaf values before list-likes; constants shared by both directions" if name == "to_json" else "leaf values first, list-likes second, tagged mappings last; constants shared by both directions",
                 f"dispatch order is {[classify(k) for k in kinds]} via {kinds}; both directions must test the shared leaf constant then the shared list-like constant")
+        if name == "to_json":
+            # a serialiser instance or a registered type may subclass int / str / tuple / list: isinstance against the plain constants would
+            # take it for a plain value and write it without its tag.  Everything that carries a tag is decided first.
+            body = list(f.node.body)
+            plain_pos = [body.index(st) for k, _, st in full_shape if classify(k) in ("leaves", "list-likes")]
+            obj_pos = [body.index(st) for k, _, st in full_shape if k.split(".")[-1] == "SubclassJSONSerializer"]
+            reg_pos = []
+            for i, st in enumerate(body):
+                if any(call_name(c) == "get_serializer" for c in calls_in(st)):
+                    # where the registered serialiser's result is returned
+                    nm = st.targets[0].id if isinstance(st, ast.Assign) and isinstance(st.targets[0], ast.Name) else None
+                    for j, st2 in enumerate(body[i:], start=i):
+                        if any(isinstance(x, ast.Return) and x.value is not None and isinstance(x.value, ast.Call) and nm and src(x.value.func) == nm for x in ast.walk(st2)):
+                            reg_pos.append(j)
+                            break
+            ok = bool(plain_pos) and bool(obj_pos) and bool(reg_pos) and max(obj_pos + reg_pos) < min(plain_pos)
+            r.check(ok, "to_json#tagged-before-plain", site(f), f"serialiser instance at {obj_pos}, registered type at {reg_pos}, plain values at {plain_pos} (statement index)",
+                    "serialiser instances and registered types are written with their tag before the plain tests",
+                    "the plain tests (isinstance against the leaf / list-like constants) come before the tagged ones: a registered namedtuple or IntEnum, or a serialiser that subclasses "
+                    "str, is written as a bare list / number / string and comes back as a plain value, not as an instance of its class")
         if len(shape) >= 1:
             k, ret, _ = shape[0]
             var = wv if name == "to_json" else rv
